@@ -67,6 +67,8 @@ type writeCtx struct {
 	ev     contEvidence
 	ctors  []ctorCall
 	absent []ssa.Value // entry values (to ask "known nil")
+	// parameters that are a constant in every execution under the property's entry point (v_zip_u.go)
+	bound map[*ssa.Parameter]*ssa.Const
 }
 
 // flowSet closes seeds under the value-preserving instructions (phi, interface and type conversions, extraction of the
@@ -341,12 +343,14 @@ func (h *zipHard) writeSummary(cal *ssa.Function, call *ssa.Call, w *writeCtx, d
 			tags = append(tags, fmt.Sprintf("h%d", i))
 		}
 	}
-	key := ir.FnName(cal) + "(" + strings.Join(tags, ",") + ")"
+	cb, ctag := constArgs(cal, call)
+	key := ir.FnName(cal) + "(" + strings.Join(tags, ",") + ")" + ctag
 	if s, ok := h.writeSums[key]; ok {
 		return s // nil while it is being computed (recursion): nothing established
 	}
 	h.writeSums[key] = nil
 	cw := h.buildWrite(cal, sn, sr, sh, depth)
+	cw.bound = cb
 	sum := &writeSum{}
 	gap := func(must map[ssa.Instruction]bool, gaps map[ssa.Instruction]string) (all, some bool, where string) {
 		if len(must) == 0 {
@@ -553,7 +557,7 @@ func (h *zipHard) skipPath(w *writeCtx, from ssa.Instruction, must map[ssa.Instr
 	q := ir.PathQuery{Fn: fn, From: from,
 		Stop: func(in ssa.Instruction) bool { return must[in] },
 		Target: func(in ssa.Instruction, val *ir.Valuation) bool {
-			if must[in] {
+			if must[in] || w.excluded(val) {
 				return false
 			}
 			if acquisitions[in] {
@@ -602,12 +606,17 @@ func acquisitionsOf(fn *ssa.Function) (acq []ssa.Instruction, byParam bool) {
 
 func (h *zipHard) entriesWritten(rule string) {
 	c := h.c
+	scope, bound := h.extractionScope()
 	for _, fn := range h.fns {
+		if scope != nil && !scope[fn] {
+			continue // the promise is UnzipToFolder's: what it does not reach is not held to it
+		}
 		acq, byParam := acquisitionsOf(fn)
 		if len(acq) == 0 && !byParam {
 			continue
 		}
 		w := h.buildWrite(fn, nil, nil, nil, 0)
+		w.bound = bound[fn]
 		if len(w.creates) == 0 && len(w.createGaps) == 0 {
 			continue
 		}
